@@ -3,7 +3,7 @@ CONSTANTS
   Budget = 2
   Shapes = {"secure3", "insecure3", "secure4", "insecure4"}
   Denials = {"nsec", "nsec3", "optout"}
-  QKinds = {"positive", "wildcard", "nodata", "nxdomain", "cname1", "cname2", "ds"}
+  QKinds = {"positive", "wildcard", "nodata", "nxdomain", "cname1", "cname2", "ds", "dname", "dnamex"}
   AdvActs = {"ForgeSigned", "CorruptKey", "CorruptDs", "DropRrset"}
 SPECIFICATION Spec
 VIEW View
